@@ -22,7 +22,7 @@ func init() {
 		Real: "real: all of kvql from /repo's working tree; simulated: storage engine, caller",
 		NCases: func(tier string) int {
 			if tier == "thorough" {
-				return 20000000
+				return 60000000
 			}
 			return 400000
 		},
